@@ -12,7 +12,10 @@ type zzReqSpec struct {
 	method string
 }
 
-var zzKindMethod = []string{"S.Echo", "S.EchoRet", "S.EchoCtx", "S.Fail", "S.Nope", "", "S.Watch"}
+var zzKindMethod = []string{"S.Echo", "S.EchoRet", "S.EchoCtx", "S.Fail", "S.Nope", "", "S.Watch", "S.Echo"}
+
+// kind 7: a request the server rejects (upgrade byte 0x40 = NoResponse alone is not a combination
+// the protocol uses): dropped without execution and without response.
 
 // zzH_SRV: N request frames (kinds chosen from the menu, argument bytes symbolic) served by the real
 // ServeCodec in a chosen mode; frames arrive together or one by one; the peer disconnects after the
@@ -29,7 +32,7 @@ func zzH_SRV() {
 	}
 	s, svc := zzNewServer(log, pipelining, directIO, false, shared)
 	svc.yield = true
-	bufSize := []int{8, 64}[vChoose("bufsize", 2)]
+	bufSize := []int{8, 64, 16, 32}[vChoose("bufsize", vParam("srv.bufsizes", 2))]
 	s.SetBufferSize(bufSize)
 	m := newZZMsgs(8)
 	m.yieldW = false
@@ -39,7 +42,9 @@ func zzH_SRV() {
 		k := vChoose("kind", kinds)
 		r := zzReqSpec{seq: uint64(i + 1), kind: k, method: zzKindMethod[k]}
 		if k != 5 {
-			r.args = vBytesN("args", 1+vChoose("arglen", 2)*9)
+			// 1 or 10 bytes; with srv.arglens=4 also 4 and 20 bytes, which make the request frame exactly
+			// 16 resp. 32 bytes long = the capacity of the 16/32-byte read buffers
+			r.args = vBytesN("args", []int{1, 10, 4, 20}[vChoose("arglen", vParam("srv.arglens", 2))])
 		}
 		reqs[i] = r
 	}
@@ -49,6 +54,9 @@ func zzH_SRV() {
 		var upg []byte
 		if r.kind == 5 {
 			upg = zzUpgBytes(zzUpgPing)
+		}
+		if r.kind == 7 {
+			upg = zzUpgBytes(0x40)
 		}
 		m.deliver(zzRequest(r.seq, upg, r.method, r.args))
 		if !together {
@@ -60,7 +68,13 @@ func zzH_SRV() {
 	vAtEnd(func() {
 		vAssert(vBlocked() == 0, "server-goroutines-exit")
 		res := zzDecodeResponses(m)
-		vAssert(len(res) == n, "one-response-per-request")
+		nrej := 0
+		for _, r := range reqs {
+			if r.kind == 7 {
+				nrej++
+			}
+		}
+		vAssert(len(res) == n-nrej, "one-response-per-request")
 		nexec := 0
 		for i, r := range reqs {
 			// responses
@@ -91,7 +105,7 @@ func zzH_SRV() {
 							}
 						}
 						for x := 0; x < i; x++ {
-							if reqs[x].kind != 5 {
+							if reqs[x].kind != 5 && reqs[x].kind != 7 {
 								pi++
 							}
 						}
@@ -99,8 +113,17 @@ func zzH_SRV() {
 					}
 				}
 			}
+			if r.kind == 7 {
+				vAssert(cnt == 0, "rejected-request-not-answered")
+				continue
+			}
 			vAssert(cnt == 1, "answered-exactly-once")
 			// executions
+			if r.kind <= 3 {
+				nexec++
+			}
+		}
+		for _, r := range reqs {
 			if r.kind <= 3 {
 				ex := 0
 				for e := range log.execs {
@@ -109,7 +132,6 @@ func zzH_SRV() {
 					}
 				}
 				vAssert(ex >= 1, "executed-with-own-args")
-				nexec++
 			}
 		}
 		vAssert(len(log.execs) == nexec, "no-extra-or-missing-execution")
